@@ -14,8 +14,9 @@ The part of x/crosschain/keeper the property is about, as a state machine:
   the sum reaches `66 * total / 100` marks the attestation observed, advances the last observed nonce and hands
   **`claim`** (not the claim recorded in the attestation, not anybody else's) to the handler.
 
-`H` is the hash (SHA-256 in the code, `hashHex` in the driver); it is a parameter so that the theorems can name
-collision-freeness as a hypothesis.  The handlers are not modelled: whether the handler panics (which undoes the whole
+`key c` is the hash part of the store key, `ClaimHash(c)` = SHA-256 of the generated `path c` in the code (`hashHex c.path`
+in the driver); it is a parameter so that the theorems can name collision-freeness as a hypothesis and so that the
+formats of the pinned commit can be put through the same machine (`legacy_executed_not_voted`).  The handlers are not modelled: whether the handler panics (which undoes the whole
 vote) is an input of the vote; oracle powers, total power, registered addresses and the nonce cursors can be changed by
 environment operations at any time (bonding, slashing, governance, earlier events).  Ghost components, never read by the
 transitions: the claim object of every vote, and the log `executed` of (claim handed to the handler, votes of the
@@ -71,6 +72,7 @@ structure Exec where
   claim : AnyClaim
   /-- the votes of the attestation at that moment -/
   tallied : List (Nat × AnyClaim)
+  deriving DecidableEq, Repr
 
 structure AState (η : Type) where
   atts : List (Att η) := []
@@ -122,23 +124,33 @@ def getAtt (atts : List (Att η)) (n : Nat) (h : η) : Option (Att η) := atts.f
 
 def setAtt (atts : List (Att η)) (a : Att η) : List (Att η) := a :: atts.filter (fun b => !sameKey a.nonce a.hash b)
 
-/-- one `MsgClaim`: oracle `o` submits claim object `c`; `handlerPanics`: the handler panics if it is run now -/
-def vote (H : Str → η) (s : AState η) (o : Nat) (c : AnyClaim) (handlerPanics : Bool) : AState η × VoteResult :=
+/-- the attestation stored under the key of claim `c` (`GetAttestation`), or a new one recording `c` -/
+def attFor (key : AnyClaim → η) (s : AState η) (c : AnyClaim) : Att η :=
+  (getAtt s.atts c.nonce (key c)).getD { nonce := c.nonce, hash := key c, claim := c, votes := [], observed := false }
+
+/-- `att.Votes = append(att.Votes, oracle)` -/
+def withVote (a : Att η) (o : Nat) (c : AnyClaim) : Att η := { a with votes := a.votes ++ [(o, c)] }
+
+/-- `TryAttestation` is entered and its loop reaches the threshold -/
+def observedNow (s : AState η) (a : Att η) (c : AnyClaim) : Bool :=
+  !a.observed && c.nonce == s.lastObserved + 1 && crosses s (a.votes.map (·.1))
+
+/-- the writes of an accepted vote; when `obs`, the handler is run on the claim object `c` of THIS voter -/
+def applyVote (s : AState η) (a : Att η) (o : Nat) (c : AnyClaim) (obs : Bool) : AState η :=
+  if obs then
+    { s with atts := setAtt (setAtt s.atts a) { a with observed := true }, lastObserved := c.nonce,
+             executed := s.executed ++ [{ claim := c, tallied := a.votes }],
+             lastByOracle := setAssoc s.lastByOracle o c.nonce }
+  else
+    { s with atts := setAtt s.atts a, lastByOracle := setAssoc s.lastByOracle o c.nonce }
+
+/-- one `MsgClaim`: oracle `o` submits claim object `c`; `handlerPanics`: the handler panics if it is run now (the
+transaction fails and nothing is written) -/
+def vote (key : AnyClaim → η) (s : AState η) (o : Nat) (c : AnyClaim) (handlerPanics : Bool) : AState η × VoteResult :=
   if !logicCheck s c then (s, .logicCheck)
   else if c.nonce != lastNonceOf s o + 1 then (s, .nonContiguous)
-  else
-    let h := H c.path
-    let att0 := (getAtt s.atts c.nonce h).getD { nonce := c.nonce, hash := h, claim := c, votes := [], observed := false }
-    let att1 := { att0 with votes := att0.votes ++ [(o, c)] }
-    let observedNow := !att1.observed && c.nonce == s.lastObserved + 1 && crosses s (att1.votes.map (·.1))
-    if observedNow && handlerPanics then (s, .panic)
-    else
-      let s1 := { s with atts := setAtt s.atts att1 }
-      let s2 := if observedNow then
-          { s1 with lastObserved := c.nonce, atts := setAtt s1.atts { att1 with observed := true },
-                    executed := s1.executed ++ [{ claim := c, tallied := att1.votes }] }
-        else s1
-      ({ s2 with lastByOracle := setAssoc s2.lastByOracle o c.nonce }, .ok)
+  else if observedNow s (withVote (attFor key s c) o c) c && handlerPanics then (s, .panic)
+  else (applyVote s (withVote (attFor key s c) o c) o c (observedNow s (withVote (attFor key s c) o c) c), .ok)
 
 /-- operations: votes, and everything else that happens to the state the votes read -/
 inductive Op where
@@ -149,8 +161,8 @@ inductive Op where
   | setLastObserved (n : Nat)
   | setOracleLast (o : Nat) (n : Option Nat)
 
-def step (H : Str → η) (s : AState η) : Op → AState η
-  | .vote o c hp => (vote H s o c hp).1
+def step (key : AnyClaim → η) (s : AState η) : Op → AState η
+  | .vote o c hp => (vote key s o c hp).1
   | .setPower o none => { s with powers := s.powers.filter (fun p => p.1 != o) }
   | .setPower o (some p) => { s with powers := setAssoc s.powers o p }
   | .setTotal t => { s with total := t }
@@ -159,7 +171,7 @@ def step (H : Str → η) (s : AState η) : Op → AState η
   | .setOracleLast o none => { s with lastByOracle := s.lastByOracle.filter (fun p => p.1 != o) }
   | .setOracleLast o (some n) => { s with lastByOracle := setAssoc s.lastByOracle o n }
 
-def run (H : Str → η) (s : AState η) (ops : List Op) : AState η := ops.foldl (step H) s
+def run (key : AnyClaim → η) (s : AState η) (ops : List Op) : AState η := ops.foldl (step key) s
 
 /-- the claims submitted by an operation list -/
 def Op.claims : List Op → List AnyClaim
